@@ -107,6 +107,7 @@ type Engine struct {
 	Samples    []Sample
 	Assumed    map[string]bool
 	Traces     []ConcTrace
+	Mon        *MonitorLog
 }
 
 type ConcTrace struct {
@@ -183,6 +184,7 @@ type Worker struct {
 	deadlockWhy string
 	lockHook    func(what string, mu *Value, fr *frame)
 	curFrame    *frame
+	mon         *monitor
 	fixed       []Draw
 	fixedPos    int
 	model       map[string]uint64 // a model of the current path condition (nil: unknown)
@@ -271,6 +273,8 @@ func (w *Worker) resetPath(prefix []Decision) {
 	w.clockLast = nil
 	w.clockN = 0
 	w.pathState = map[string]interface{}{}
+	w.mon = nil
+	w.lockHook = nil
 	w.model = map[string]uint64{}
 	w.gs = nil
 	w.curG = nil
@@ -286,8 +290,6 @@ func (w *Worker) noteFunc(fn *ssa.Function) {
 
 func (w *Worker) noteLoop(fr *frame) {}
 
-func (w *Worker) noteStore(p *Value) {}
-func (w *Worker) noteLoad(p *Value)  {}
 
 func (w *Worker) noteAlloc(fr *frame, instr ssa.Instruction) { w.noteAllocN(fr, instr, 1) }
 
